@@ -55,6 +55,9 @@ def add_loopless(model: "Model", zero_cutoff: Optional[float] = None) -> None:
             "The loopless formulation needs finite bounds on all reactions "
             "(the largest bound is used as big-M)."
         )
+    # The range [1, max_delta_g] of the free energy proxies must leave room for
+    # a cycle through all internal reactions, whatever the flux bounds are.
+    max_delta_g = max(max_bound, len(internal))
     prob = model.problem
 
     # Add indicator variables and new constraints
@@ -70,12 +73,12 @@ def add_loopless(model: "Model", zero_cutoff: Optional[float] = None) -> None:
             ub=0,
             name=f"on_off_{rxn.id}",
         )
-        # -(max_bound + 1) * a_i + 1 <= G_i <= -(max_bound + 1) * a_i + 1000
+        # -(max_delta_g + 1) * a_i + 1 <= G_i <= -(max_delta_g + 1) * a_i + max_delta_g
         delta_g = prob.Variable(f"delta_g_{rxn.id}")
         delta_g_range = prob.Constraint(
-            delta_g + (max_bound + 1) * indicator,
+            delta_g + (max_delta_g + 1) * indicator,
             lb=1,
-            ub=max_bound,
+            ub=max_delta_g,
             name=f"delta_g_range_{rxn.id}",
         )
         to_add.extend([indicator, on_off_constraint, delta_g, delta_g_range])
